@@ -38,7 +38,7 @@ var c04Fns = []model.FunctionType{
 	model.FunctionTypeLoadControlLimitListData,
 	model.FunctionTypeSetpointListData,
 	model.FunctionTypeDeviceConfigurationKeyValueListData,
-	model.FunctionTypeHvacOverrunListData,                                // control: no flag, one key
+	model.FunctionTypeHvacOverrunListData,                              // control: no flag, one key
 	model.FunctionTypeElectricalConnectionParameterDescriptionListData, // control: no flag, two keys
 }
 
@@ -80,8 +80,8 @@ type c04Write struct {
 	shape     string
 	u         rig.Update
 	addressed map[int]bool // identifiers (of the domain) the write addresses; may name absent elements
-	all       bool            // addresses every element
-	flagShape bool            // the write mentions the flag
+	all       bool         // addresses every element
+	flagShape bool         // the write mentions the flag
 }
 
 func c04Changeable(li *rig.ListInfo, it reflect.Value) bool {
@@ -452,7 +452,7 @@ func c04Case(c *rig.Ctx) {
 	for h := 0; h < histories; h++ {
 		// the list: 2-4 elements, identifiers a sorted subset of the domain, flags true/false/absent
 		n := 2 + r.Intn(3)
-		ids := append([]int(nil), r.Perm(c04Dom-1)[:n]...)
+		ids := append([]int(nil), r.Perm(c04Dom - 1)[:n]...)
 		sort.Ints(ids)
 		allTrue := r.Intn(4) == 0
 		var cur []reflect.Value
